@@ -92,6 +92,11 @@ def install_choice_segments_contract(k, world):
         nz = zdim(n)
         from pyvc.stubs.jnp_impl import _forall
 
+        # facts of integer arithmetic about the pair numbering p = i * C + c (valid; stated to help the solver)
+        for c in range(C):
+            p_ = i * C + c
+            ctx.assume(z3.ForAll([i], z3.And(p_ / C == i, p_ % C == c)), tag="arith:div-mod-of-pair-number")
+
         ctx.prove_then_assume("every-agent-keeps-at-least-one-admissible-combination", _forall([i], z3.Implies(z3.And(i >= 0, i < nz), z3.Or(*[mask.get((i * C + c,)) for c in range(C)])), dims=[nz]), "pre")
         return {"segment_ids": out["segment_ids"], "num_segments": n}
 
@@ -482,8 +487,8 @@ def key_discipline_contract(k, inst):
         f1 = k.call_fn(S.sim, S.P, seed=int(S.seed), **kw)
         f2 = k.call_fn(S.sim, S.P, seed=int(S.seed) + 17, **kw)
         n = int(S.n)
-        k.ensures("same-seed-same-frame", all(np.array_equal(np.asarray(S.frame[c].values), np.asarray(f1[c].values)) for c in S.frame.columns))
-        k.ensures("period-0-does-not-depend-on-the-seed", all(np.array_equal(np.asarray(S.frame[c].values)[:n], np.asarray(f2[c].values)[:n]) for c in S.frame.columns))
+        k.ensures("same-seed-same-frame", all(np.array_equal(np.asarray(S.frame[c].values, dtype=float), np.asarray(f1[c].values, dtype=float), equal_nan=True) for c in S.frame.columns))
+        k.ensures("period-0-does-not-depend-on-the-seed", all(np.array_equal(np.asarray(S.frame[c].values, dtype=float)[:n], np.asarray(f2[c].values, dtype=float)[:n], equal_nan=True) for c in S.frame.columns))
         return
     import z3
 
@@ -552,7 +557,7 @@ def solve_and_simulate_contract(k, inst):
         import numpy as np
 
         f2 = k.call_fn(S.sim, S.P, initial_states=S.init, vf_arr_list=list(S.vf), seed=int(S.seed))
-        k.ensures("same-frame-as-passing-the-solution", all(np.allclose(np.asarray(S.frame[c].values, dtype=float), np.asarray(f2[c].values, dtype=float)) for c in S.frame.columns))
+        k.ensures("same-frame-as-passing-the-solution", all(np.allclose(np.asarray(S.frame[c].values, dtype=float), np.asarray(f2[c].values, dtype=float), equal_nan=True) for c in S.frame.columns))
         return
     for t in range(T):
         o = S.opaque.get(t)
@@ -677,12 +682,12 @@ def _frame_native(k, inst):
     a = solve_model(P1)
     solve_model(P2)
     c = solve_model(P1)
-    k.ensures("repeated-and-interleaved-calls-give-the-result-of-the-current-arguments", all(np.array_equal(np.asarray(x), np.asarray(y)) for x, y in zip(a, c)))
+    k.ensures("repeated-and-interleaved-calls-give-the-result-of-the-current-arguments", all(np.array_equal(np.asarray(x), np.asarray(y), equal_nan=True) for x, y in zip(a, c)))
     k.ensures("params-unchanged", same_tree(jax_to_np(P1), c1))
     k.ensures("model-unchanged", dict(m.functions) == before["functions"] and dict(m.states) == before["states"] and dict(m.choices) == before["choices"])
     solve2, _ = glf(model=m, targets="solve", jit=False)
     d = solve2(P1)
-    k.ensures("building-the-function-again-gives-the-same-results", all(np.array_equal(np.asarray(x), np.asarray(y)) for x, y in zip(a, d)))
+    k.ensures("building-the-function-again-gives-the-same-results", all(np.array_equal(np.asarray(x), np.asarray(y), equal_nan=True) for x, y in zip(a, d)))
 
 
 def jax_to_np(t):
